@@ -65,6 +65,8 @@ func (c18) Plan(tier string, seed int64) []core.Scenario {
 		out = append(out, core.Sc("stateless").WithS("transport", "http").WithN("i", i))
 		out = append(out, core.Sc("stateless").WithS("transport", "custom").WithN("i", i))
 	}
+	// the peer has stopped reading: a large request is stuck in write(2) when the closer is invoked
+	out = append(out, core.Sc("stalled-write").WithN("mb", 32))
 	if tier == "thorough" {
 		// repeat the whole enumeration with different noise
 		base := append([]core.Scenario(nil), out...)
@@ -85,6 +87,8 @@ func (p c18) Run(sc core.Scenario) core.Result {
 	r := core.NewR(sc)
 	if sc.Kind == "stateless" {
 		p.stateless(sc, r)
+	} else if sc.Kind == "stalled-write" {
+		p.stalledWrite(sc, r)
 	} else {
 		p.closeAt(sc, r)
 	}
@@ -291,6 +295,49 @@ func (c18) closeAt(sc core.Scenario, r *core.R) {
 	r.Obs("calls", int64(len(allOuts)))
 	r.Sig(core.Log.Signature())
 	r.Sample(map[string]interface{}{"close_at": point, "occurrence": occ, "trigger_fired": triggerFired, "outstanding_calls_and_streams": outstandingAtFire, "calls": len(allOuts), "streams": len(allGots)})
+}
+
+// stalledWrite: the peer stops reading; a request larger than the socket buffers blocks the client's
+// connection loop inside write(2); then the closer is invoked.
+func (c18) stalledWrite(sc core.Scenario, r *core.R) {
+	env := NewEnv(EnvOpt{})
+	defer env.Shutdown()
+	pol := noisePolicy(sc)
+	// the peer stops reading at the very moment the connection loop starts writing the large request
+	pol.Rules = append(pol.Rules, &core.Rule{Point: "ws.req.registered", Side: 1, Occ: 2, Do: func(jsonrpc.VerifEvent) { env.Px.KillAll(wsproxy.STALL) }})
+	defer pol.Install()()
+	cl, err := env.NewClient(ClientOpt{Opts: []jsonrpc.Option{jsonrpc.WithReconnectBackoff(5*time.Millisecond, 20*time.Millisecond), jsonrpc.WithPingInterval(50 * time.Millisecond), jsonrpc.WithTimeout(500 * time.Millisecond)}})
+	if err != nil {
+		r.Inconclusive("client: %v", err)
+		return
+	}
+	bg := context.Background()
+	w := Tok("w")
+	cl.Echo(bg, w, "")
+	t := Tok("b")
+	big := Go(t, func() (string, error) { return cl.Echo(bg, t, strings.Repeat("p", sc.I("mb")<<20)) })
+	// wait until the connection loop has taken the request and is writing it
+	pol.WaitPoint("ws.req.registered", 1, 1, 3*core.Grace)
+	time.Sleep(250 * time.Millisecond)
+	written := pol.Count("ws.req.written", 1) >= 2
+	closed := make(chan struct{})
+	go func() { cl.Close(); close(closed) }()
+	okClose := core.WaitCh(closed, core.Grace)
+	r.Key("stalled-write", !written)
+	r.Obs("stalled_write_formed", b2i(!written))
+	r.Sample(map[string]interface{}{"scenario": "closer invoked while a 32 MiB request is stuck in write(2) to a peer that stopped reading", "write_completed_before_close": written, "closer_returned": okClose, "write_returned_by_then": pol.Count("ws.req.written", 1) >= 2, "events": core.Log.Tail(12)})
+	if written {
+		r.Inconclusive("the request was swallowed by the socket buffers: the write did not stall")
+		return
+	}
+	if !okClose {
+		r.Violate("closer-hang:stalled-write", "the closer did not return within %v while the connection loop is blocked writing a %d MiB request to a peer that stopped reading (no write deadline); events: %s", core.Grace, sc.I("mb"), core.Log.Tail(20))
+		env.Px.KillAll(wsproxy.RST)
+		return
+	}
+	if !big.Wait(core.Grace) {
+		r.Violate("call-blocked-after-close", "the call whose request was stuck in write(2) is still blocked after the closer returned")
+	}
 }
 
 func (c18) stateless(sc core.Scenario, r *core.R) {
